@@ -35,7 +35,7 @@ func init() {
 			{Name: "cause-x-load", Fn: scnC08, Weight: 1, Group: len(c08Causes) * len(c08Loads)},
 		},
 		Rule: "matrix cause (14: EOF / EIO on either pipe, malformed audit line, output write error on a UserLogin / a UserAction / a hold-queue flush, either input path not a pipe or missing, " +
-			"cancellation as stand-in for SIGTERM/SIGINT, invalid login) x load (idle; mid-traffic; saturated = the line consumer is starved until the internal buffer is full, capacities {1,2,8,64,10000}, and the audit writer " +
+			"cancellation as stand-in for SIGTERM/SIGINT, invalid login) x load (idle; mid-traffic, in a third of the runs after a short session whose records all preceded its login line; saturated = the line consumer is starved until the internal buffer is full, capacities {1,2,8,64,10000}, and the audit writer " +
 			"keeps feeding after the fault; sustained = the audit writer never pauses; other-pipe-without-writer = the pipe not involved in the cause has no writer attached yet) enumerated within each group of runs, " +
 			"x schedule policy x fault instant x (taped) one more accepted login right after the fault; after the fault a fair schedule (run-to-block, or uniformly random turns with the line consumer as the slow side under load) " +
 			"with the clock advancing at quiescence: RunNamedPipe must return within 5 simulated seconds and 50000 steps, with a non-nil error for failure causes; runs in which the injected write failure never happened are not judged; " +
@@ -130,6 +130,19 @@ func scnC08(rc *RunCtx) {
 	var feeder *doneFlag
 	switch load {
 	case "mid-traffic":
+		if !configCause && sw != nil && aw != nil && t.Choose(3, "short.session") == 2 {
+			// an earlier short session: all its records, up to the credential disposal, are read
+			// before its sshd line arrives (held, then released and forgotten in one go)
+			rc.Sim.Count("c08.short_session_before_fault")
+			sp := pid + 500
+			sl := GenLogin(t, sp, 2)
+			for _, e := range []*KEvent{k.Login("630", sp, 1001), GenAction(t, k, "630", sp, 1001), k.UserMsg("CRED_DISP", "630", sp, 1001, true, 0)} {
+				aw.Write([]byte(strings.Join(e.Lines, "\n") + "\n"))
+			}
+			runToStepOrState(rc, func() bool { return ret.v || (auditPipe.BlockedRead && auditPipe.Buffered() == 0) }, -1, 3000)
+			sw.Write([]byte(sl.Line(false)))
+			runToStepOrState(rc, func() bool { return ret.v || (sshdPipe.BlockedRead && sshdPipe.Buffered() == 0) }, -1, 1000)
+		}
 		if !configCause {
 			writeSession()
 		}
